@@ -839,6 +839,112 @@ func genOne(r *h.Rand, c int, nk int) *genCase {
 	return g
 }
 
+// splits enumerates every way to write a subset of {0..dom-1} as consecutive blocks:
+// each timestamp is absent (0), starts a block (1) or continues the current block (2).
+func splits(dom int) []fileSpec {
+	var out []fileSpec
+	n := 1
+	for i := 0; i < dom; i++ {
+		n *= 3
+	}
+	for code := 0; code < n; code++ {
+		var f fileSpec
+		c := code
+		open := false
+		ok := true
+		for ts := 0; ts < dom; ts++ {
+			d := c % 3
+			c /= 3
+			switch d {
+			case 0:
+			case 1:
+				f.blocks = append(f.blocks, []int64{int64(ts)})
+				open = true
+			case 2:
+				if !open {
+					ok = false // same layout as "starts a block": skip the duplicate
+				} else {
+					b := &f.blocks[len(f.blocks)-1]
+					*b = append(*b, int64(ts))
+				}
+			}
+			if !ok {
+				break
+			}
+		}
+		if ok {
+			out = append(out, f)
+		}
+	}
+	return out
+}
+
+// genExhaustive (thorough tier): every pair of files over the timestamps {0,1,2}, every split
+// into blocks, no or one deleted range on the newer file; every seek time in -1..3, both
+// directions, alternating scalar/array and value type.
+func genExhaustive(emit func([]string)) {
+	sp := splits(3)
+	var dels [][][2]int64
+	dels = append(dels, nil)
+	for lo := int64(0); lo < 3; lo++ {
+		for hi := lo; hi < 3; hi++ {
+			dels = append(dels, [][2]int64{{lo, hi}})
+		}
+	}
+	types := []string{"f", "i", "u", "b", "s"}
+	var gs []*genCase
+	flush := func() {
+		var wg sync.WaitGroup
+		sem := make(chan struct{}, runtime.GOMAXPROCS(0))
+		for _, g := range gs {
+			wg.Add(1)
+			sem <- struct{}{}
+			go func(g *genCase) {
+				defer wg.Done()
+				defer func() { <-sem }()
+				defer func() {
+					if e := recover(); e != nil && len(g.ops) == 0 {
+						g.ops = []string{g.l.String()}
+					}
+				}()
+				g.fill()
+			}(g)
+		}
+		wg.Wait()
+		for _, g := range gs {
+			emit(g.ops)
+		}
+		gs = nil
+	}
+	n := 0
+	for _, f0 := range sp {
+		for _, f1 := range sp {
+			for _, d := range dels {
+				if len(f1.blocks) == 0 && d != nil {
+					continue
+				}
+				g := &genCase{}
+				g.l = layout{typ: types[n%5], mode: n % 2, decoy: n % 4, files: []fileSpec{f0, {blocks: f1.blocks, deletes: d}}}
+				for t := int64(-1); t <= 3; t++ {
+					for _, dir := range []string{"a", "d"} {
+						v := "s"
+						if (n+int(t))%2 == 0 {
+							v = "a"
+						}
+						g.ks = append(g.ks, kop{v, dir, t})
+					}
+				}
+				n++
+				gs = append(gs, g)
+				if len(gs) >= 256 {
+					flush()
+				}
+			}
+		}
+	}
+	flush()
+}
+
 func gen(r *h.Rand, tier string, emit func([]string)) {
 	nLayouts, nk := 1200, 12
 	if tier == "thorough" {
@@ -871,6 +977,9 @@ func gen(r *h.Rand, tier string, emit func([]string)) {
 		for _, g := range gs {
 			emit(g.ops)
 		}
+	}
+	if tier == "thorough" {
+		genExhaustive(emit)
 	}
 	// malformed stream
 	emit([]string{"L q 0 0 1,2", "K s a 1 -", "L f 2 0 1,2", "X", "V z - 0 0", "L f 0 0 1,2;3", "K s x 1 0.0,0.1", "K s a zz 0.0,0.1"})
